@@ -24,3 +24,13 @@ Theorem C16_generated_code_is_model :
   (forall bs cf e a, gen_scale_fixed_point bs cf e a = scale_fixed_point bs cf e a).
 Proof. exact generated_code_is_model. Qed.
 Print Assumptions C16_generated_code_is_model.
+
+(* "the sensor diagonal": the constant LhDeck4SensorPositions.diagonal_distance of the current sources is the distance
+   between the sensor pairs (0,3) and (1,2) of the current sensor table, i.e. the diagonals that
+   _calculate_mean_diagonal measures.  (On the tree before fix F16b it was sqrt(L^2+L^2): this obligation fails there.) *)
+Theorem C16_deck_diagonal_constant_matches_sensor_table : forall d,
+  length gen_deck_positions = 4%nat /\
+  gen_deck_diagonal = dist (nth 0 gen_deck_positions d) (nth 3 gen_deck_positions d) /\
+  gen_deck_diagonal = dist (nth 1 gen_deck_positions d) (nth 2 gen_deck_positions d).
+Proof. exact gen_deck_diagonal_ok. Qed.
+Print Assumptions C16_deck_diagonal_constant_matches_sensor_table.
